@@ -10,6 +10,46 @@ CLAIMED = {
  "C03": ("exploration", "property-based testing against naive row-by-row reference kernels on logical values; model-based histories for the batch coalescer (proptest-generated types, layouts, predicates, index arrays, push/filter/finish/pop sequences)",
          "Every selection kernel (filter, FilterBuilder, take, concat, interleave, zip, merge, merge_n, nullif, shift, slice, dictionary GC, record-batch forms) is run on generated columns of every data type in generated physical layouts and compared row by row with a reference on logical values; outputs are also judged by two validators. The BatchCoalescer is driven by generated histories against a model queue (row sequence, exact batch sizes, buffered-row accounting). Exploration: thousands of cases per kernel aimed at the selectivity/type thresholds named in DESIGN.md, not a proof.",
          "trusts the engine's realiser/extractor (cross-checked by C02 readback) and the 60-line reference kernels in vp-engine/src/refsel.rs; mirrors documented preconditions (in-bounds valid indices, equal lengths, merge without null mask, target>=1); two open known findings (F9 nullif on run-end arrays, F10 take on unions with out-of-range null index) are excluded by construction and re-checked by the `findings` sub-check", "DESIGN.md §3 C03"),
+
+ "C09": ("exploration", "property-based differential acceptance testing: proptest-generated near-valid layouts (valid realised arrays hit by 1-2 layout mutations) fed to every validating entry point; oracle = independent spec validator + bounded accessor walk",
+         "Valid arrays of every type/layout are decomposed and mutated (length/offset overflow, short/missing/misaligned buffers, validity size/null_count, wrong children, offsets, UTF-8 boundaries, dictionary keys, views, list-view ranges, run ends, union ids/offsets) and fed to ArrayData::try_new, ArrayDataBuilder::build (with/without align_buffers), build_unchecked+validate_full and the typed try_new/new constructors; acceptance must imply acceptance by an independent validator written from the format spec, followed by an accessor/kernel walk without panic; unmutated controls must be accepted. Exploration over ~250k near-valid layouts per quick run, not a proof of completeness of validation.",
+         "trusts the independent validator vp-engine/src/validate.rs (itself run on every array the harness realises); constructor panics count as rejection; field nullability judged only for typed constructors; open findings F1, F3a, F3b-struct excluded by signature/construction and re-checked by the findings sub-check", "DESIGN.md §3 C09"),
+ "C04": ("exploration", "property-based round-trip testing (proptest-generated schemas, batch sequences, physical layouts, write options, dictionary histories, reader kinds/projections) through IPC file/stream/StreamEncoder/Flight with a logical-value oracle and an expected-error model of DictionaryTracker",
+         "Writer->reader round trips over a committed IPC type grid x layouts x options (alignment, V4/V5, LZ4/ZSTD, Resend/Delta) x readers (FileReader, builder+projection, FileDecoder, StreamReader, StreamDecoder chunked) and Flight encoder/decoders with size limits; decoded schema and logical values must equal the input, projection must equal projecting a full read, dictionary evolution outcomes must follow the documented accept/reject table. Exploration (tens of thousands of scenarios per run).",
+         "trusts engine realiser/extractor; no independent IPC implementation exists offline, so the oracle is round-trip + documented error table; 9 open findings excluded by construction (see known_findings.json)", "DESIGN.md §3 C04"),
+ "C05": ("exploration", "property-based round-trip testing of the Arrow Parquet writer/reader over generated schemas, values, layouts, WriterProperties and write/flush partitions; serial-vs-parallel column writer differential with harness-owned completion order",
+         "Generated batches (writer-supported type grid committed as data, nesting to depth 3-4, nulls at every level) are written under generated WriterProperties (version, encodings, dictionary fallback, page/row-group/write-batch limits, codecs, statistics, bloom, CDC) and partitions into write()/flush() calls, read back with generated batch sizes and compared by logical values and schema; the same data encoded by independent column writers released in generated order must decode identically. Exploration.",
+         "trusts engine realiser/extractor; no independent Parquet implementation offline (round-trip oracle only); 8 open findings excluded by construction via the grid's known_defects lists", "DESIGN.md §3 C05"),
+ "C06": ("exploration", "property-based differential testing: reader with generated projection/row groups/RowSelection/RowFilter/offset/limit/batch size/policy vs an in-memory reference computed from an unrestricted read; Vec<bool> position model for the RowSelection algebra",
+         "For generated files (page/row-group layouts, flat and nested columns, with/without offset index, V1/V2) and generated read configurations the reader output must equal the reference obtained by reading everything and applying the documented order of operations in memory; no batch may exceed the batch size; RowSelection operations are compared with a position-set model incl. scan_ranges. Exploration (1.2M evaluations per quick run).",
+         "trusts engine extractor and the sync full read as ground truth of file content (C05 checks that separately); pub(crate) offset/limit/trim reached only through with_offset/with_limit; open finding C06-delta-skip-overflow excluded by construction", "DESIGN.md §3 C06"),
+ "C07": ("exploration", "property-based soundness testing of statistics/page index/bloom filter against ground truth decoded page by page with the low-level reader and reference comparators written from the Parquet spec",
+         "Files over all sort orders (signed/unsigned, float total order with NaNs/zeros, decimals on every physical type, truncated UTF-8/binary bounds, booleans, intervals) are written with generated statistics/truncation/bloom settings; every chunk/page min/max must bound the decoded values (and be attained when flagged exact), null/row counts exact, boundary_order true, offset index consistent, Sbbf::check true for every written value, StatisticsConverter consistent. Exploration.",
+         "trusts the low-level page reader for ground truth (independent of the indexes under test) and the reference comparators in c07.rs; 3 open findings excluded by construction", "DESIGN.md §3 C07"),
+ "C10": ("exploration", "property-based relational testing: comparator laws on all slot pairs/triples, and sort/lexsort/rank/partition/comparison kernels checked against make_comparator and an independent model order on logical values",
+         "For generated arrays of every sortable/comparable type and layout under all four SortOptions: comparator is a total preorder consistent with model equality and the model order; sort/sort_limit/lexsort outputs are sorted permutations with correct limit semantics; rank and partition are those induced by the comparator; eq/lt/distinct kernels agree per row incl. scalar and dictionary/run-end operands; unsupported types return the documented Err. Exploration with exhaustive pair/triple checks per small array.",
+         "trusts the model order in order_model.rs (three-way agreement with make_comparator is itself checked); 5 open findings excluded by construction", "DESIGN.md §3 C10"),
+ "C11": ("exploration", "property-based testing of the row format against a model tuple order: all row pairs within and across conversion histories on one converter; decode/binary round-trips",
+         "For generated SortField tuples (all supported types to depth 3, all SortOptions) and converter histories (convert_columns, append, push, from_binary, parser, OwnedRow) every pair of rows must compare as the model tuple order and be byte-equal exactly when logically equal; convert_rows of any selection returns the values with the documented output types and valid arrays; block-boundary grid for variable-length data. Exploration.",
+         "trusts order_model.rs; rows of different converters are never compared (documented); 4 open findings excluded by construction", "DESIGN.md §3 C11"),
+ "C12": ("exploration", "property-based testing against arbitrary-precision references (num-bigint) with exhaustive 8-bit operand grids (16-bit in thorough), boundary-dense sampling, error-inducing garbage under nulls; exhaustive three-valued boolean tables",
+         "Checked/wrapping integer, i256, decimal (result type + exact value), float, temporal/interval arithmetic in all Datum shapes, aggregates over lengths 0..=300 x null patterns incl. dictionary/run-end accessors, and boolean/Kleene kernels are compared with exact references; an error may only come from a valid slot; results null exactly where an input is null. 8-bit pairs exhaustive in quick, all 2^32 16-bit pairs in thorough.",
+         "trusts num-bigint and the reference formulas in c12.rs (decimal result-type rules taken from the decimal_op docs); documented leniencies listed in the evidence assumptions; 3 open findings excluded by construction", "DESIGN.md §3 C12"),
+ "C13": ("exploration", "property-based testing of casts: exhaustive support matrix over an 84-type grid, strict/safe duality against exact reference conversions (exhaustive 8-bit sources, 16-bit in thorough), lossless inverse pairs, text and DataType Display/parse round-trips",
+         "Every grid pair accepted by can_cast_types must cast without an unsupported-style error to exactly the target type with valid output; strict mode errors exactly when a value is not representable and safe mode nulls exactly those rows for the numeric/temporal families with an exact reference; lossless casts invert; formatting then parsing returns the value over the full range; DataType Display parses back. Exploration + exhaustive sub-spaces.",
+         "trusts the reference conversions in c13.rs restricted to pairs whose documented semantics are exact (restrictions listed as assumptions); 19 open findings excluded by construction, each with a reproduction", "DESIGN.md §3 C13"),
+ "C15": ("exploration", "property-based differential testing under adversarial I/O schedules generated by proptest: sync reader vs async stream (poll_next / next_row_group) with generated Pending/vectored/metadata behaviour vs push decoder with generated delivery order, supersets, duplicates, early and whole-file delivery and into_builder rebuilds; range-log invariants",
+         "For generated files and option sets the async stream driven by a manual executor over an adversarial AsyncFileReader and the push decoder under a generated delivery schedule must return exactly the rows of the synchronous reader; every requested range lies in the file, supplying exactly the requested ranges makes progress, nothing is requested after Finished. The harness owns the schedule. Exploration.",
+         "trusts the sync reader as reference (C06 checks it); each requested range is delivered inside one supplied buffer (documented PushBuffers precondition); future cancellation out of scope", "DESIGN.md §3 C15"),
+ "C17": ("exploration", "property-based round-trip and cross-implementation testing: generated batches/options through CSV, JSON and Avro writers and readers; RFC 8259 / RFC 4180 documents rendered by independent renderers (serde_json as acceptor only); apache-avro as independent Avro implementation; hand-made Avro encoder",
+         "Round trips over committed per-format type grids and generated option sets (quoting, escapes, terminators, null sentinels, JSON framings/struct modes/explicit nulls, every Avro codec and framing); JSON/CSV readers must decode construction-known values from independently rendered documents and reject invalid ones; Avro files must decode identically under apache-avro in both directions. Exploration.",
+         "trusts my RFC renderers, serde_json (acceptor), apache-avro 0.22, std float parsing; generator constraints implement the property's 'unambiguous text' clause; 14 open findings excluded by construction", "DESIGN.md §3 C17"),
+ "C18": ("fault_enumeration", "fault injection with enumeration of every I/O call index and every truncation length: instrumented Write/Read/Seek/ChunkReader wrappers (error once/permanent, short, Interrupted, Ok(0)) over proptest-generated scenarios for all writers and readers",
+         "For each generated scenario the fault-free I/O trace is recorded and every call index is re-run with each fault kind (all indices for traces <=200 calls, stratified above; all in thorough), and every prefix length of every produced file (all for files <=8 KiB) is fed to the readers: faults must surface as Err without panic/hang, finish must not succeed unless all bytes were accepted, deterministic writers' output before the fault is a prefix, readers never return wrong rows, footer formats reject every proper prefix, stream formats yield a row prefix.",
+         "trusts the fault wrappers in c18.rs and the complete-file read as reference; CSV truncation judged per the carve-out in DESIGN; a writer is not used again after it returned Err; open finding C18-csv-into_inner-unwrap excluded by construction", "DESIGN.md §3 C18"),
+ "C20": ("exploration", "property-based testing against naive char-level reference implementations (backtracking LIKE matcher, per-char case folding taken from the regex engine, char-indexed substring) with exhaustive short-pattern grids and cross-representation differential (Utf8/LargeUtf8/Utf8View/Dictionary)",
+         "Every pattern of length <=4 (<=5 thorough) over {%,_,\\,a,é} against a fixed multi-byte string set plus sampled patterns at the classifier boundaries, for all LIKE variants, starts/ends_with/contains, regexp kernels vs regex::Regex, substring (byte and char), length/bit_length and concat_elements, in all operand shapes and encodings; outputs valid. Exploration + exhaustive sub-space.",
+         "trusts the reference matcher in c20_ref.rs and the regex crate for case equivalence (the property's own definition); 2 open findings excluded by construction", "DESIGN.md §3 C20"),
 }
 REASON_TODO = "check not built yet in this session (technique applies; see DESIGN.md §3) - not claimed until a sound check exists"
 def main():
